@@ -394,4 +394,67 @@ theorem fromConfig_order_irrelevant (σ σ' : List Name → List Name) (hσ : Se
     intro steps
     exact run_same steps _ _ w1 w2 same
 
+
+/-! ### a shared-reward component naming an agent that does not exist -/
+
+theorem foldE_step0_keyError (s : SimState) (as : List (Name × Agent)) (order : List Name)
+    (hk : (agentKeys as).Nodup) (hf : Fresh as) :
+    ∀ (l : List Name), (∃ x ∈ l, x ∉ agentKeys as) →
+      foldE (updOne s) { agents := as, order := order, stepCounter := 0 } l = .error .keyError := by
+  intro l
+  induction l with
+  | nil => intro ⟨x, hx, _⟩; simp at hx
+  | cons n l ih =>
+    intro hex
+    by_cases hn : n ∈ agentKeys as
+    · obtain ⟨a, ha⟩ := mem_keys_lookup hn
+      obtain ⟨hc, ht, _⟩ := hf (n, a) (mem_of_lookup_agents ha)
+      simp only at hc ht
+      have hone : updOne s { agents := as, order := order, stepCounter := 0 } n =
+          .ok { agents := as, order := order, stepCounter := 0 } := by
+        unfold updOne
+        simp only [ha, Nat.lt_irrefl, if_false]
+        have : ({ a with total := a.total + a.current } : Agent) = a := by
+          rw [hc, ht]; cases a; simp_all [Rat.add_zero]
+        rw [this, setAgent_self hk ha]
+      simp only [foldE, hone]
+      apply ih
+      obtain ⟨x, hx, hxk⟩ := hex
+      rcases List.mem_cons.mp hx with rfl | hx
+      · exact absurd hn hxk
+      · exact ⟨x, hx, hxk⟩
+    · have hl : as.lookup n = none := (lookup_none_iff as n).mpr hn
+      simp only [foldE, updOne, hl]
+
+/-- An acyclic configuration in which some agent shares from a name that is not an agent does not load: the evaluation
+order contains that name and the first `update_agents` raises `KeyError`. -/
+theorem fromConfig_dangling (σ : List Name → List Name) (hσ : SetLike σ) (cfgs : List AgentCfg)
+    (hb : hasCycle (sharingGraph σ (buildAgents cfgs)) = false) (hnc : ¬ Closed (buildAgents cfgs)) :
+    fromConfig σ cfgs = .error .keyError := by
+  obtain ⟨hk, hfresh⟩ := buildAgents_inv cfgs
+  have hac : Acyclic (sharingGraph σ (buildAgents cfgs)) := (hasCycle_false_iff _).mp hb
+  have hgk : (keys (sharingGraph σ (buildAgents cfgs))).Nodup := by rw [keys_sharingGraph]; exact hk
+  have hex : ∃ n a v, (buildAgents cfgs).lookup n = some a ∧ v ∈ sharedNames a.comps ∧
+      v ∉ agentKeys (buildAgents cfgs) := by
+    apply Classical.byContradiction
+    intro h
+    apply hnc
+    intro n a ha v hv
+    apply Classical.byContradiction
+    intro hvk
+    exact h ⟨n, a, v, ha, hv, hvk⟩
+  obtain ⟨n, a, v, ha, hv, hvk⟩ := hex
+  have hvu : v ∈ univ (sharingGraph σ (buildAgents cfgs)) := by
+    unfold univ
+    apply List.mem_append_right
+    simp only [List.mem_flatMap]
+    refine ⟨(n, σ (sharedNames a.comps)), ?_, (hσ _ v).mpr hv⟩
+    unfold sharingGraph
+    exact List.mem_map.mpr ⟨(n, a), mem_of_lookup_agents ha, rfl⟩
+  have hvo : v ∈ topoSort (sharingGraph σ (buildAgents cfgs)) := (topoSort_mem_iff _ hac hgk v).mpr hvu
+  unfold fromConfig
+  simp only [hb, Bool.false_eq_true, if_false]
+  unfold updateAgents
+  exact foldE_step0_keyError _ _ _ hk hfresh _ ⟨v, hvo, hvk⟩
+
 end Primaite.Reward
